@@ -81,29 +81,26 @@ fn c04_frames_stream_offset_plus_len() {
     }
 }
 
-/// CRYPTO, specification: accepted iff offset + length <= 2^62-1 (RFC 9000 §19.6: "The largest
-/// offset delivered on a stream -- the sum of the offset and data length -- cannot exceed 2^62-1.
-/// Receipt of a frame that exceeds this limit MUST be treated as a connection error of type
-/// FRAME_ENCODING_ERROR or CRYPTO_BUFFER_EXCEEDED").
-/// pending: be_crypto_frame tests `offset + offset` instead of `offset + length`.
-fn crypto_parse(spec: bool) {
+/// CRYPTO: an accepted frame has offset + length <= 2^62-1 (RFC 9000 §19.6: "The largest offset
+/// delivered on a stream -- the sum of the offset and data length -- cannot exceed 2^62-1. Receipt
+/// of a frame that exceeds this limit MUST be treated as a connection error of type
+/// FRAME_ENCODING_ERROR or CRYPTO_BUFFER_EXCEEDED"); otherwise nom TooLarge. Hence
+/// CryptoFrame::range() cannot overflow and crypto::recv::Recver::recv's
+/// `assert!(offset + data.len() <= VARINT_MAX)` is unreachable from the wire (be_frame slices exactly
+/// `length` bytes of data).
+/// (Until /repo commit 636ae6e the parser tested `offset + offset`; this harness returned that
+/// defect as a counterexample: offset=1, length=2^62-1 accepted.)
+#[kani::proof]
+#[kani::unwind(10)]
+fn c04_frames_crypto_offset_plus_len() {
     let b = two_varints_after(0x00);
     // skip the leading byte: CRYPTO has no stream id
     match be_crypto_frame(&b[1..]) {
         Ok((_remain, f)) => {
-            if spec {
-                assert!(f.offset() + f.len() <= VARINT_MAX, "C04: accepted CRYPTO frame ends at or below 2^62-1");
-            } else {
-                // what the code guarantees today: offset <= (2^62-1)/2, length unconstrained
-                assert!(f.offset() <= VARINT_MAX / 2);
-                // with a length that fits a UDP datagram the sum cannot exceed the limit either,
-                // so Recver::recv's `assert!(offset + data.len() <= VARINT_MAX)` is unreachable
-                if f.len() <= 65535 {
-                    assert!(f.offset() + f.len() <= VARINT_MAX);
-                    let r = f.range();
-                    assert!(r.end - r.start == f.len());
-                }
-            }
+            assert!(f.offset() + f.len() <= VARINT_MAX, "C04: accepted CRYPTO frame ends at or below 2^62-1");
+            let r = f.range();
+            assert!(r.start == f.offset() && r.end - r.start == f.len());
+            kani::cover!(f.offset() + f.len() == VARINT_MAX, "ends exactly at 2^62-1");
             kani::cover!(f.len() > 65535, "length larger than any datagram (refused later as IncompleteFrame)");
         }
         Err(nom::Err::Error(e)) => {
@@ -114,21 +111,8 @@ fn crypto_parse(spec: bool) {
     }
 }
 
-#[kani::proof]
-#[kani::unwind(10)]
-fn c04_frames_crypto_offset_plus_len() {
-    crypto_parse(true);
-}
-
-#[kani::proof]
-#[kani::unwind(10)]
-fn c04_frames_crypto_offset_bound_as_built() {
-    crypto_parse(false);
-}
-
-/// The other half of the same typo: a legitimate CRYPTO frame (offset + length <= 2^62-1) whose
-/// offset is above (2^62-1)/2 is refused. pending (completeness side; harmless in practice: no
-/// handshake carries 2^61 bytes).
+/// Completeness witnesses: well-formed CRYPTO frames at the top of the offset space are accepted
+/// (offset = 2^61, length = 0 was refused before commit 636ae6e).
 #[kani::proof]
 #[kani::unwind(10)]
 fn c04_frames_crypto_accepts_legit_high_offset() {
@@ -136,7 +120,10 @@ fn c04_frames_crypto_accepts_legit_high_offset() {
     let bytes: [u8; 9] = [0xe0, 0, 0, 0, 0, 0, 0, 0, 0x00];
     let r = be_crypto_frame(&bytes[..]);
     kani::cover!(true, "parsed");
-    assert!(r.is_ok(), "C04: a CRYPTO frame with offset + length <= 2^62-1 is well-formed");
+    match r {
+        Ok((rest, f)) => assert!(rest.is_empty() && f.offset() == 1u64 << 61 && f.len() == 0),
+        Err(_) => panic!("C04: a CRYPTO frame with offset + length <= 2^62-1 is well-formed"),
+    }
 }
 
 fn stub_fmt_write(_o: &mut dyn core::fmt::Write, _a: core::fmt::Arguments<'_>) -> core::fmt::Result {
